@@ -10,12 +10,16 @@ Require Import Conf ConfRT ConfTotal ConfPrint.
 Require ConfPrint2.
 Local Open Scope N_scope.
 
-Theorem any_rendering_reads_back_as_its_tree : forall es t, rfile es t -> wf es -> es <> [] -> nonul t -> parse t = inr (norm es).
+(* tdepth es = how deep the objects of the written tree are nested (an object is one more than its deepest child); the parser
+   refuses more than max_depth = CONF_MAX_DEPTH = 64 levels (C14: deep_nesting_is_rejected), so every read-back statement is
+   for trees within the limit *)
+Theorem any_rendering_reads_back_as_its_tree : forall es t,
+  rfile es t -> wf es -> (tdepth es <= max_depth)%nat -> es <> [] -> nonul t -> parse t = inr (norm es).
 Proof. exact parse_renders. Qed.
 Print Assumptions any_rendering_reads_back_as_its_tree.
 
-(* in particular the canonical printer, for trees of any size, depth and string content (NUL-free) *)
-Theorem printed_tree_reads_back : forall es, wf es -> es <> [] -> parse (print es) = inr (norm es).
+(* in particular the canonical printer, for trees of any size, any depth up to the limit and any string content (NUL-free) *)
+Theorem printed_tree_reads_back : forall es, wf es -> (tdepth es <= max_depth)%nat -> es <> [] -> parse (print es) = inr (norm es).
 Proof. exact parse_print. Qed.
 Print Assumptions printed_tree_reads_back.
 
@@ -32,7 +36,7 @@ Print Assumptions quoted_string_reads_back_exactly.
    may stand - is read back as exactly norm es.  All side conditions (a bare word must be followed by a non-word byte, ...)
    are inside the relation; the old renderings are included. *)
 Theorem any_documented_rendering_reads_back_as_its_tree : forall es t,
-  ConfPrint2.rfile2 es t -> wf es -> es <> [] -> nonul t -> parse t = inr (norm es).
+  ConfPrint2.rfile2 es t -> wf es -> (tdepth es <= max_depth)%nat -> es <> [] -> nonul t -> parse t = inr (norm es).
 Proof. exact ConfPrint2.parse_renders2. Qed.
 Print Assumptions any_documented_rendering_reads_back_as_its_tree.
 
